@@ -171,3 +171,75 @@ Definition live (ops : list dop) : list (N * bool) * bool := fold_left live_step
 (* the invocations the next Put must make *)
 Definition expected_log (pre : list dop) (d : bytes) : list (N * N) :=
   if snd (live pre) then [] else map (fun cb => (fst cb, blen d)) (fst (live pre)).
+
+(* ---- the linksystem-facing write path: BlockWriteOpener ------------------------------------------------
+   dcw.BlockWriteOpener()(lctx) = ipld storage.PutStream(ctx, dcw); the deferred writer is not a
+   StreamingWritableStorage, so PutStream falls back to an in-memory buffer and a committer that calls
+   dcw.Put(link.Binary(), buffer) the first time it is used and fails afterwards ("WriteCommitter already
+   used").  Opening and writing do not touch the deferred writer at all. *)
+Inductive dxop :=
+| XD (op : dop)
+| XOpen (h : N)                   (* a fresh writer + committer, named h by the history *)
+| XWrite (h : N) (data : bytes)   (* writer.Write(data) *)
+| XCommit (h : N) (k : bytes).    (* committer(link with CID bytes k) *)
+
+(* handle -> (buffer, committer already used) *)
+Definition dbufs := list (N * (bytes * bool)).
+Fixpoint buf_get (h : N) (b : dbufs) : option (bytes * bool) :=
+  match b with
+  | [] => None
+  | (h', v) :: t => if h =? h' then Some v else buf_get h t
+  end.
+Definition buf_set (h : N) (v : bytes * bool) (b : dbufs) : dbufs := (h, v) :: b.
+
+(* what an opener step means for the deferred writer: the Put it performs (first commit), or nothing;
+   and the buffers afterwards *)
+Definition dx_eff (b : dbufs) (op : dxop) : option dop * dbufs :=
+  match op with
+  | XD o => (Some o, b)
+  | XOpen h => (None, buf_set h ([], false) b)
+  | XWrite h data =>
+      match buf_get h b with
+      | Some (buf, used) => (None, buf_set h (buf ++ data, used) b)
+      | None => (None, b)
+      end
+  | XCommit h k =>
+      match buf_get h b with
+      | Some (buf, false) => (Some (DPut k buf), buf_set h (buf, true) b)
+      | _ => (None, b)
+      end
+  end.
+(* the result of an opener step that performs no Put *)
+Definition dx_idle_res (b : dbufs) (op : dxop) : out :=
+  match op with
+  | XCommit h _ => match buf_get h b with Some (_, true) => OErr EOther | _ => OErr EOracleMiss end
+  | XWrite h _ => match buf_get h b with Some _ => ONil | None => OErr EOracleMiss end
+  | _ => ONil
+  end.
+
+Record dxstate := mkdx { dx_st : dstate; dx_bufs : dbufs }.
+Definition dx_init : dxstate := mkdx d_init [].
+
+Definition dx_step (c : dcfg) (xs : dxstate) (op : dxop) : dxstate * dout :=
+  match dx_eff (dx_bufs xs) op with
+  | (Some o, b') => let '(st', r) := d_step c (dx_st xs) o in (mkdx st' b', r)
+  | (None, b') => (mkdx (dx_st xs) b', mkdout (dx_idle_res (dx_bufs xs) op) [])
+  end.
+Definition dx_run (c : dcfg) (xs : dxstate) (ops : list dxop) : dxstate :=
+  fold_left (fun s op => fst (dx_step c s op)) ops xs.
+Fixpoint dx_trace (c : dcfg) (xs : dxstate) (ops : list dxop) : list (dxstate * dout) :=
+  match ops with
+  | [] => []
+  | op :: t => let '(xs', o) := dx_step c xs op in (xs', o) :: dx_trace c xs' t
+  end.
+
+(* layer B: the plain history an opener history amounts to -- every first commit is a Put of the bytes
+   written to that writer so far, everything else about openers disappears *)
+Fixpoint dx_flatten (b : dbufs) (ops : list dxop) : list dop :=
+  match ops with
+  | [] => []
+  | op :: t => match dx_eff b op with
+               | (Some o, b') => o :: dx_flatten b' t
+               | (None, b') => dx_flatten b' t
+               end
+  end.
